@@ -249,4 +249,19 @@ def OpWF : Op → Prop
   | .del k => k < 2 ^ 64
   | .clear => True
 
+/-- The index part of `FileStorage.record_iternext(next)` exactly as coded (after the repair of the
+    `struct.error` at the largest oid): `oid = index.minKey(next)` (its error propagates); no id follows
+    2^64-1; otherwise `index.minKey(pack(">Q", oid + 1))` where only `ValueError` means "no further
+    record" (`None`).  Returns the oid whose record is loaded and the key handed back for the next call. -/
+def recordIterNext (ix : Idx) (next : Option Nat) : Except Err (Nat × Option Nat) :=
+  match minKey ix next with
+  | .error e => .error e
+  | .ok oid =>
+    if oid + 1 < 2 ^ 64 then
+      match minKey ix (some (oid + 1)) with
+      | .ok n => .ok (oid, some n)
+      | .error .valueError => .ok (oid, none)
+      | .error e => .error e
+    else .ok (oid, none)
+
 end ZodbModel.FsIndex
